@@ -265,11 +265,66 @@ def meta_spec(r: random.Random, avoid=None, n_objects=None, types=None, origin_p
     for l in range(lf_count):
         hid = gen.name(r, f'HDR{l}', r.choice([4, 10, 64, 65]), hc=True)
         lfs.append({'fh_id': hid, 'fh_sequence_number': r.choice([1, 2, 9, 10, 12345, 10 ** 10 - 1])})
+    if lf_count > 1 and r.random() < 0.35:
+        # logical files whose headers are EQUAL (same id, same sequence number): equal is not identical
+        for lf_ in lfs[1:]:
+            lf_.update(lfs[0])
     sp = gen.base_spec(mx, lfs=lfs, set_identifier=gen.name(r, 'SUL', r.choice([3, 20, 60]), hc=True))
     for l in range(lf_count):
         c = Ctx(r, sp, lf=l, avoid=avoid, hc=hc, prefix=(f'L{l}-' if lf_count > 1 else ''))
         populate(c, n_objects, types, origin_pos, n_origins, later_p, named_sets=(lf_count > 1))
     sp['write'] = {'output_chunk_size': r.choice([mx, 2 ** 16]), 'input_chunk_size': r.choice([None, 1, 3])}
+    if lf_count > 1 and r.random() < 0.5:
+        interleave(sp, r)
+    if r.random() < 0.25:
+        sp['caller_reuses_lists'] = r.choice([True, 'keeps-last'])     # (see spec.run_op: one caller-owned list per keyword, refilled for every call)
+    return sp
+
+
+def remap_indices(x, new_index):
+    """Copy of a spec fragment in which every op index ('$ref', '$origin_of', 'target') is replaced by new_index[old]."""
+    if isinstance(x, dict):
+        out = {}
+        for k, v in x.items():
+            if k in ('$ref', '$origin_of', 'target') and isinstance(v, int) and not isinstance(v, bool):
+                out[k] = new_index[v]
+            else:
+                out[k] = remap_indices(v, new_index)
+        return out
+    if isinstance(x, list):
+        return [remap_indices(v, new_index) for v in x]
+    return x
+
+
+def interleave(sp, r, origin_race=False):
+    """The logical files are built in an INTERLEAVED order (a few calls for one, a few for another, ...): the order of the
+    calls made for each logical file stays what it was; the specification is the same.
+    origin_race: the last logical file's calls up to its first origin come first, then every other logical file's calls up to
+    and including ITS first origin -- objects of one logical file are waiting for their origin while another one gets its."""
+    ops = sp['ops']
+    queues = {}
+    for i, op in enumerate(ops):
+        queues.setdefault(op.get('lf', 0), []).append(i)
+    order = []
+    if origin_race and len(queues) > 1:
+        last = max(queues)
+        while queues[last] and ops[queues[last][0]]['op'] != 'origin':
+            order.append(queues[last].pop(0))
+        for l in sorted(queues):
+            if l != last:
+                while queues[l]:
+                    i = queues[l].pop(0)
+                    order.append(i)
+                    if ops[i]['op'] == 'origin':
+                        break
+    while any(queues.values()):
+        l = r.choice(sorted(k for k, q in queues.items() if q))
+        for _ in range(r.choice([1, 1, 2, 3, 6])):
+            if queues[l]:
+                order.append(queues[l].pop(0))
+    new_index = {old: new for new, old in enumerate(order)}
+    sp['ops'] = [remap_indices(ops[old], new_index) for old in order]
+    sp['interleaved'] = True
     return sp
 
 
